@@ -1,6 +1,7 @@
 package main
 
 import (
+	"go/token"
 	"go/types"
 	"strings"
 
@@ -14,6 +15,33 @@ import (
 // names are API and are looked up by name only.
 
 var roleResolvers = map[string]func(c *Ctx) *ssa.Function{
+	// the hex digit decoder of boc: the function that turns an ASCII hex digit into its value - it subtracts 'a'
+	// from a byte and fails with ErrInvalidHex (the helper, or the parser it was folded into)
+	"boc:hexToInt": func(c *Ctx) *ssa.Function {
+		var found []*ssa.Function
+		for _, f := range c.moduleFuncs("boc") {
+			subA, errHex := false, false
+			allInstrs(f, func(_ *ssa.BasicBlock, in ssa.Instruction) {
+				switch x := in.(type) {
+				case *ssa.BinOp:
+					if k, ok := constInt(x.Y); ok && x.Op == token.SUB && k == 'a' {
+						subA = true
+					}
+				case *ssa.UnOp:
+					if g, ok := x.X.(*ssa.Global); ok && g.Name() == "ErrInvalidHex" {
+						errHex = true
+					}
+				}
+			})
+			if subA && errHex {
+				found = append(found, f)
+			}
+		}
+		if len(found) == 1 {
+			return found[0]
+		}
+		return nil
+	},
 	// the answer dispatcher of the lite client: the method of Client, called from the reader loop, that hands a
 	// packet to the waiting caller - it (or a helper it calls) looks the query id up in the map of reply channels
 	"liteclient:Client.processQueryAnswer": func(c *Ctx) *ssa.Function {
